@@ -352,4 +352,28 @@ theorem bits_roundtrip_aux (mapping : List (String × Nat)) (hkeys : (mapping.ma
       have := eq_of_snd_eq mapping hinj (r, p.2) (mem_of_lookup hl) p hp rfl
       exact hm (by rw [← this]; exact hr)
 
+theorem mapM_zip {α β : Type} (f : α → Option β) : ∀ (xs : List α) (ys : List β), xs.mapM f = some ys →
+    ys.length = xs.length ∧ ∀ p ∈ xs.zip ys, f p.1 = some p.2 := by
+  intro xs
+  induction xs with
+  | nil => intro ys h; simp at h; subst h; simp
+  | cons x xs ih =>
+    intro ys h
+    rw [List.mapM_cons] at h
+    cases hx : f x with
+    | none => simp [hx] at h
+    | some y =>
+      cases hxs : xs.mapM f with
+      | none => simp [hx, hxs] at h
+      | some ys' =>
+        simp [hx, hxs] at h
+        subst h
+        obtain ⟨hl, hz⟩ := ih ys' hxs
+        refine ⟨by simp [hl], ?_⟩
+        intro p hp
+        simp only [List.zip_cons_cons, List.mem_cons] at hp
+        rcases hp with rfl | hp
+        · exact hx
+        · exact hz p hp
+
 end HailVerif.SpecFormat
